@@ -299,6 +299,29 @@ def r4(ctx: Context) -> None:
         ctx.add("R4", f"{f.qualname}::cache-hit-test-is-a-flag", ok, f.loc(h), detail)
 
 
+def r6(ctx: Context) -> None:
+    """The distributed path cuts a group into batches; the sync path does not."""
+    from ..flow import chunk_loop_defects
+
+    ctx.rule("R6", "a group is executed entire in both modes: every loop of pynenc that cuts a sequence into chunks (`for i in range(A, B, S): X[i:i + S]`) starts at 0, runs up to len(X) and slices X[i:i + S] - the batch route of parallelize / direct tasks then routes every call of the group, as the sync path (which does not batch) executes every call")
+    n = 0
+    for f in ctx.repo.all_functions():
+        if not f.module.name.startswith("pynenc."):
+            continue
+        loops = [lp for lp in walk_no_nested(f.node) if isinstance(lp, ast.For) and isinstance(lp.iter, ast.Call) and call_name(lp.iter) == "range" and len(lp.iter.args) == 3]
+        if not loops:
+            continue
+        defects = chunk_loop_defects(f.node)
+        for lp in loops:
+            sliced = any(isinstance(x, ast.Subscript) and isinstance(x.slice, ast.Slice) and isinstance(x.slice.lower, ast.Name) and isinstance(lp.target, ast.Name) and x.slice.lower.id == lp.target.id for x in ast.walk(lp))
+            if not sliced:
+                continue
+            n += 1
+            mine = [d for d in defects if d[0] is lp]
+            ctx.add("R6", f"{f.qualname}::chunks-cover-every-element", not mine, f.loc(lp), "" if not mine else f"{mine[0][2]}: for some group sizes (k * batch + 1 ...) the last calls of the group are never routed in distributed mode - the group returns fewer results than in sync mode and their bodies never run")
+    ctx.floor("R6", "chunk loops", n, 3)
+
+
 def run(ctx: Context) -> None:
     sites = sqlmini.sites(ctx.repo)
     r1_r2(ctx, sites)
@@ -314,6 +337,7 @@ def run(ctx: Context) -> None:
     for i in sub.instances:
         ctx.add("R5", i.key.split("/", 2)[2], i.ok, i.where, i.detail)
     ctx.floor("R5", "exception encoding obligations", ctx.count("R5"), 20)
+    r6(ctx)
     ctx.exhaustive = True
     ctx.not_decided += [
         "equality of outcomes for generated task programs (behavioural: nested calls, groups, values)",
